@@ -1,4 +1,5 @@
 import DeapModel.Core.CmaElitist
+import DeapModel.Core.CmaSelectLib
 import Driver.Proto
 /-! Protocol handler for C14 (elitist / multi-objective CMA-ES), `Float` instance of the model.
 
@@ -151,6 +152,17 @@ def opMoSel (mu ncand fronts tape : String) : Option String := do
   | none => some "raise"
   | some (c, nc) => some (sNats c ++ " " ++ sNats nc)
 
+/-- `mo-sel-lib <mu> <nobj> <wvalues>`: `_select` end to end through the COMPOSED model
+(`MOLib.select`: C04's `sortLog` as the ranking, C15's `leastContributor` as the indicator) on exact
+rational weighted values; answers the chosen and the not-chosen candidate positions, in order. -/
+def opMoSelLib (mu nobj ws : String) : Option String := do
+  let mu ← parseNat mu; let nobj ← parseNat nobj
+  let ws ← parseList2 parseRat ws
+  if !(decide (2 ≤ nobj) && ws.all (fun w => w.length == nobj)) then none
+  match MOLib.select mu nobj (MOLib.mkCands ws) with
+  | none => some "raise"
+  | some (c, nc) => some (sNats (c.map (·.id)) ++ " " ++ sNats (nc.map (·.id)))
+
 def opMoUpd (args : List String) : Option String := do
   match args with
   | [dim, nobj, mu, l, d, pt, cp, cc, ccov, pth, pxs, pwvs, ptags, sigmas, As, invs, pcs, psuccs,
@@ -291,6 +303,7 @@ def handle : List String → String
       " ".intercalate ([p.d, p.ptarg, p.cp, p.cc, p.ccov, p.pthresh].map sF)
     | none => "bad-op"
   | ["mo-sel", mu, ncand, fronts, tape] => (opMoSel mu ncand fronts tape).getD "bad-op"
+  | ["mo-sel-lib", mu, nobj, ws] => (opMoSelLib mu nobj ws).getD "bad-op"
   | ["mo-r1", invCh, A, alpha, beta, v] =>
     match (do
       let v ← pVec v; let invCh ← pMat invCh; let A ← pMat A
